@@ -51,6 +51,10 @@ CLAIMS = {
   "Deductive: DependencyTools._is_scalar_parallelisable over the abstract access view (True only for read-only scalars or scalars whose first access is an unconditional write, outside two recorded known classes); _independent_0_var (True exactly on a never_equal answer) together with the VCs of SymbolicMaths.never_equal; _get_dependency_distance: the helper-name loop terminates (variant under a ghost bound on the finite type map), the helper unknown's name is not a key of the type map, only an Integer solution becomes a distance. One defect repaired (fix: 425a843, non-terminating loop), two known findings (conditional first write, call argument first).",
   "Assumed: access view (C11 link), sympy objects and calls as uninterpreted functions. NOT under contract: _partition, _is_loop_carried_dependency, _array_access_parallelisable, can_loop_be_parallelised (the array rule and its quantification over iteration pairs); C17's translation findings ('/', MOD, '**') are inherited.",
   TECH + "; loop variant with a ghost bound; call-site obligation on the helper symbol"),
+ "C10": ("proof",
+  "Deductive: the real bodies of validate_global_constraints of OMPParallelDirective, OMPDoDirective (+ _validate_single_loop, _validate_collapse_value with a loop invariant over the nest cursor), OMPParallelDoDirective, OMPSerialDirective, OMPTaskloopDirective, OMPLoopDirective and ACCLoopDirective are verified: returning normally implies the structural rule each guards (no nested parallel regions; do/single/master inside a parallel region; taskloop inside a serial region; omp loop inside target/parallel; one loop with collapse(n) over n perfectly nested loops; acc loop inside a compute region of its routine or in an 'acc routine' routine, without PSyData/CodeBlock). Two known findings (open), both replayed: IndexError on an empty collapsed loop body; OMPLoopDirective does not check that the collapsed nest is perfect.",
+  "Assumed: tree queries (ancestor with excluding/limit, walk, dir_body, loop_body) as uninterpreted functions; children lists well-formed (C14). NOT under contract: the transformations' validate methods (ParallelRegionTrans, collapse counting in ParallelLoopTrans), nested omp do / nested acc parallel (no validator exists), compiler acceptance.",
+  TECH),
 }
 
 NA = {
